@@ -27,6 +27,15 @@ RULE = ("gamma surfaces: n1 x n2 grids (4-15) of Fourier-sum or random energies 
         "tau/alpha/beta/cutoff/flags changed through their setters in between; solve is preceded and followed by evaluations "
         "of another grid and takes its settings from the constructor, the setters or its keywords; every evaluation is judged "
         "like the first.  "
+        "Option combinations: every legal combination of the optional keywords of the coordinate conversions and of "
+        "E_gsf/delta - alternative a1vect and a2vect, a1vect only, a2vect only (integer combinations of the stored vectors, "
+        "handed over integer-typed when whole) x default / explicit plotting axis xvect x position given as a1/a2, pos or "
+        "x/y - judged against my own 2D basis algebra (documented default of xvect: the Cartesian of the a1vect in use).  "
+        "Input forms (over half of the cases of coords, coords_multi, pn_terms, pn_total, solve): float ndarray, list, nested "
+        "tuple, read-only ndarray, non-contiguous view, numpy scalars, integer-typed (whole-number fractional and plotting "
+        "coordinates; x grids of whole angstroms and disregistries rounded to whole angstroms as int ndarray / list of ints; "
+        "for solve: the initial guess and x in all these forms, through the setters or solve's keywords); tau/beta as "
+        "list/tuple/read-only/non-contiguous; after every call the caller's objects are compared with a snapshot.  "
         "Non-trivial: surfaces - oblique shift vectors or an array-valued query; PN - disregistry with non-zero edge and "
         "screw parts and at least one of tau/alpha/beta active; solve - the same with >= 7 points; halfwidth and arctan - "
         "every case (generic parameters)")
@@ -39,9 +48,11 @@ ASSUMPTIONS = ["numpy/scipy linear algebra and scipy.optimize are correct",
                "from the full form') is taken, the docstring prints the formula with a - sign",
                "beta is symmetric (the documented formula sums beta_lj over j, the code over l)"]
 LEVEL_TEXT = ("Generated-input exploration of GammaSurface (interpolation at samples, periodicity, coordinate conversions for "
-              "one and many points, JSON/XML model round trip) and SDVPN (every energy term against independent formula "
-              "evaluation, total = sum, quadratic/shift properties of the elastic term, solve monotone with fixed ends, "
-              "classical half-width recovered for a sinusoidal misfit law).")
+              "one and many points under every combination of the a1vect/a2vect/xvect keywords, JSON/XML model round trip) and "
+              "SDVPN (every energy term against independent formula evaluation, total = sum, quadratic/shift properties of the "
+              "elastic term, solve monotone with fixed ends and storing the minimiser's result, classical half-width recovered "
+              "for a sinusoidal misfit law), with object histories and the documented input forms (lists, tuples, integer-typed, "
+              "read-only, non-contiguous arrays; caller's arrays unchanged).")
 TECHNIQUE = ("input energies at samples, exact nearest-sample table, integer-period invariance, independent 2D basis "
              "solves, scalar-loop PN sums, summation-by-parts identity, analytic PN half-width")
 WALL = {'quick': 75, 'thorough': 600}
@@ -1576,6 +1587,10 @@ def oracle_pn_total(case):
 
 
 # ----------------------------------------------------------------------------- solve
+# Input classes deliberately left out (not documented to work, so nothing is asserted for them): alternative a1vect /
+# a2vect in 4-index Miller-Bravais form (the conversion methods document "crystal vector" and take the dot product with
+# the 3 box vectors); integer-typed Cartesian pos arrays (in-plane positions with whole-number Cartesian components
+# exist only for special planes; integer-typed a1/a2, x/y and vectors are covered).
 
 SOLVE_CPU_LIMIT = 90.0
 
